@@ -3,7 +3,7 @@
    ret); every program without the `view` instruction returns a reference into a region allocated during the call, so no
    later mutation of the buffer's backing array changes what it denotes; `view` provably aliases.  The facts obligations
    (no unsafe/reflect import, no reader takes buf.Bytes()/buf.Next()) tie the Go readers to the copying programs. -/
-import FinProto.Obl.Side
+import FinProto.Obl.SNoOpaque
 import FinProto.Props.AliasProofs
 namespace FinProto.Obl
 open FinProto FinProto.Alias
